@@ -124,7 +124,20 @@ def check_transition(hist, op, cfg):
                      f"object running only {ref_hist} observes {_short(obs_ref[-1], obs_live[-1])}",
                      case=case, observed=_short(obs_live[-1], obs_ref[-1]),
                      expected=_short(obs_ref[-1], obs_live[-1]), tol=0))
-    elif not history.same(stored(live), stored(ref)) and obs_live[-1][0] != "raise":
+    elif op in ("rf", "rf_density") and obs_live[-1][0] == "val":
+        # a recovery value is a function of the latest simulation and the call's own arguments: earlier
+        # recovery reads (with another density flag, say) must not leak into it
+        alone_hist = [o for o in full[:k] if o in SET_OPS] + [o for o in full[k:-1] if o in SIM_OPS or o in SET_OPS] + [op]
+        _, obs_alone = build(alone_hist, cfg)
+        if not obs_equal(obs_live[-1], obs_alone[-1]):
+            out.append(V("stale-state/read-depends-on-earlier-read",
+                         f"{op} after history {full} returns {_short(obs_live[-1], obs_alone[-1])}; the same call right "
+                         f"after the latest simulate ({alone_hist}) returns {_short(obs_alone[-1], obs_live[-1])}",
+                         case=case, observed=_short(obs_live[-1], obs_alone[-1]),
+                         expected=_short(obs_alone[-1], obs_live[-1]), tol=0))
+    if out:
+        return out
+    if not history.same(stored(live), stored(ref)) and obs_live[-1][0] != "raise":
         out.append(V("stale-state/stored-field",
                      f"stored time/pseudopressure after {full} differ from a fresh object running {ref_hist}",
                      case=case, tol=0))
